@@ -725,6 +725,7 @@ Fixpoint np_sublists (l : list (list ilab)) : option (list (list tok)) :=
   end.
 Definition np_parse_inter (ops : list (shape * list ilab)) (out : option (list ilab))
   : option (list (list lab) * list lab) :=
+  if Nat.eqb (length ops) 0 then None else       (* einsum needs at least one operand *)
   match np_sublists (map snd ops) with
   | None => None
   | Some ts =>
@@ -879,6 +880,42 @@ Definition front_out_shape_v (fx : fixes) (a : eargs) : option (list Z) :=
   end.
 Definition front_out_shape := front_out_shape_v no_fixes.
 
+(* --- vocabulary of the general theorems (ParseFacts.v: string_matches_numpy ...) --- *)
+(* rendering of a token list back into a string (no blanks) *)
+Definition unlex1 (t : tok) : str :=
+  match t with
+  | TL c => [c]
+  | TEll => [c_dot; c_dot; c_dot]
+  | TComma => [c_comma]
+  | TArrow => [c_dash; c_gt]
+  end.
+Definition unlex (ts : list tok) : str := concat (map unlex1 ts).
+(* a label character that cannot be confused with the syntax: every letter is one, and so is
+   every symbol get_symbol produces *)
+Definition not_reserved (c : nat) : Prop :=
+  c <> c_space /\ c <> c_comma /\ c <> c_dash /\ c <> c_dot /\ c <> c_gt.
+Definition tok_ok (t : tok) : Prop := match t with TL c => not_reserved c | _ => True end.
+
+(* sorted(set(s)) filtered by "occurs once" *)
+Definition once_sorted (l : list nat) : list nat :=
+  filter (fun s => Nat.eqb (count s l) 1) (sort_nat (unique l)).
+
+(* the labels of a parsed call: letters occurring in the inputs, broadcast dimensions below |E| *)
+Definition label_in (used : list nat) (E : str) (l : lab) : Prop :=
+  match l with LN c => In c used | LB k => k < length E end.
+
+(* well-formedness of the symbol map of the interleaved form: keys distinct, Ellipsis -> "...",
+   labels -> one symbol get_symbol i each, distinct labels -> distinct symbols *)
+Definition dots : str := [c_dot; c_dot; c_dot].
+Definition sm_wf (m : list (ilab * str)) (c : nat) : Prop :=
+  NoDup (map fst m) /\
+  (forall x v, In (x, v) m -> match x with IE => v = dots | IL _ => exists i, i < c /\ v = [get_symbol i] end) /\
+  (forall k1 k2 i, In (IL k1, [get_symbol i]) m -> In (IL k2, [get_symbol i]) m -> k1 = k2).
+
+(* the symbol of label k *)
+Definition sigma (m : list (ilab * str)) (k : nat) : nat :=
+  match sm_get m (IL k) with Some [s] => s | _ => 0 end.
+
 (* --- structured equations, for stating the theorems over ALL well-formed inputs --- *)
 (* a term: letters before the ellipsis, whether there is one, letters after *)
 Record sterm := mkST { st_pre : list nat; st_ell : bool; st_post : list nat }.
@@ -902,3 +939,26 @@ Definition np_transpose (x : array) (perm : list nat) : array :=
 (* einsum 'term->output' without summed index: out[p] = x[e(term)] where e(output[k]) = p[k] *)
 Definition einsum1_nosum (term output : list nat) (x : array) : array :=
   fun p => x (map (fun s => match find_pos s output with Some k => nth k p 0 | None => 0 end) term).
+
+(* ================================================================== *)
+(* Part 6: vocabulary of the value-invariance theorem (uses the shared Net.v / Einsum.v) *)
+From Ctg Require Import Net Einsum.
+
+(* a network with every label renamed by f: inputs, output and the keys of the size dictionary *)
+Definition relabel_sizes (f : nat -> nat) (sd : sizes) : sizes := map (fun kv => (f (fst kv), snd kv)) sd.
+Definition relabel_net (f : nat -> nat) (n : net) : net :=
+  mkNet (map (map f) (inputs n)) (map f (output n)) (relabel_sizes f (szd n)).
+Definition net_labels (n : net) : list nat := concat (inputs n) ++ output n ++ map fst (szd n).
+Definition inj_on (f : nat -> nat) (D : list nat) : Prop :=
+  forall x y, In x D -> In y D -> f x = f y -> x = y.
+Definition agree_on (D : list nat) (e1 e2 : env) : Prop := forall j, In j D -> e1 j = e2 j.
+
+(* the contraction canonicalize_inputs was asked to canonicalise *)
+Definition original_net (ins0 : list (list nat)) (out0 : option (list nat))
+           (shapes : option (list shape)) (sd : option sizes) : net :=
+  mkNet ins0
+        (match out0 with Some o => o | None => find_output_from_inputs ins0 end)
+        (match sd with
+         | Some sdv => sdv
+         | None => match shapes with Some shs => sizes_from_shapes ins0 shs | None => [] end
+         end).
